@@ -281,7 +281,7 @@ Qed.
 
 Lemma lay_stmt_sim s : stmt_sim s.
 Proof.
-  induction s as [ce body IH | fid body IH | s Hs] using stmt_ind2; intros inrep st st' S HL Hn Hm.
+  induction s as [ce body IH | own fid body IH | s Hs] using stmt_ind2; intros inrep st st' S HL Hn Hm.
   - rewrite !lay_stmt_repeat. pose proof S as [Ea [Ef [Es _]]]. rewrite <- Ef, <- Es.
     rewrite (lev_move st st' _ ce S HL).
     destruct (lev enc D' allkeys exports fuel st' _ ce); simpl; auto.
@@ -289,9 +289,9 @@ Proof.
     simpl in Hm. rewrite lnames_nested in Hm. apply iter_sim; auto.
   - destruct inrep; [reflexivity|]. rewrite !lay_stmt_include.
     pose proof S as [Ea [Ef [Es [El [Et [Eb Ei]]]]]].
-    set (s0 := mkL (l_addr st) fid 0 (l_labels st) (l_ddots st) (l_based st) true).
-    set (s0' := mkL (l_addr st') fid 0 (l_labels st') (l_ddots st') (l_based st') true).
-    assert (S0 : sim n s0 s0') by (unfold sim, s0, s0'; simpl; auto 10).
+    set (s0 := mkL (l_addr st) fid 0 (l_labels st) (l_ddots st) (l_based st) (own || l_inc st)).
+    set (s0' := mkL (l_addr st') fid 0 (l_labels st') (l_ddots st') (l_based st') (own || l_inc st')).
+    assert (S0 : sim n s0 s0') by (unfold sim, s0, s0'; simpl; rewrite Ei; auto 10).
     simpl in Hn. rewrite nodef_nested in Hn. simpl in Hm. rewrite lnames_nested in Hm.
     pose proof (lay_list_sim (cut_end body) (Forall_cut_end _ _ IH) false s0 s0' S0 HL (forallb_cut_end _ _ Hn)
                   (fun m Hi => Hm m (lnames_cut_end _ _ Hi))) as R.
@@ -369,7 +369,7 @@ Qed.
 
 Lemma keeps_stmt s : keeps s.
 Proof.
-  induction s as [ce body IH | fid body IH | s Hs] using stmt_ind2; intros inrep st st' d H.
+  induction s as [ce body IH | own fid body IH | s Hs] using stmt_ind2; intros inrep st st' d H.
   - rewrite lay_stmt_repeat in H. xinv H. clear Ha Ha0. revert st st' d H. generalize (Z.to_nat a0). intros k.
     induction k as [|k IHk]; intros st st' d H; simpl in H.
     + inversion H; subst. auto.
@@ -400,8 +400,8 @@ Proof.
   destruct x; simpl; rewrite ?IH; reflexivity.
 Qed.
 
-Lemma first_base_skipA n e l1 : forall r, first_base (l1 ++ Assign n e :: r) = first_base (l1 ++ r).
-Proof. induction l1 as [|x l IH]; intros r; simpl; [reflexivity|]. destruct x; simpl; rewrite ?IH; reflexivity. Qed.
+Lemma first_base_skipA n e l1 : forall r f, first_base f (l1 ++ Assign n e :: r) = first_base f (l1 ++ r).
+Proof. induction l1 as [|x l IH]; intros r f; [reflexivity|]. cbn [app first_base]. rewrite IH. reflexivity. Qed.
 
 Lemma file_ids_skipA n e l1 r : file_ids (l1 ++ Assign n e :: r) = file_ids (l1 ++ r).
 Proof. unfold file_ids. rewrite !flat_map_app. reflexivity. Qed.
@@ -448,7 +448,7 @@ Qed.
 
 Lemma nodef_defs_stmt n s : stmt_nodef_defs n s.
 Proof.
-  induction s as [ce body IH | fid body IH | s Hs] using stmt_ind2; intros Hn f sc d Hd.
+  induction s as [ce body IH | own fid body IH | s Hs] using stmt_ind2; intros Hn f sc d Hd.
   - destruct Hd.
   - cbn [defs_stmt] in Hd. rewrite defs_go_eq in Hd. simpl in Hn. rewrite nodef_nested in Hn.
     eapply nodef_defs_list; eauto.
@@ -697,8 +697,8 @@ Proof.
   assert (XL : collect_exports 0 (l1 ++ Assign n e :: l2 ++ l3) = collect_exports 0 q0) by apply collect_exports_skipA.
   assert (XR : collect_exports 0 (l1 ++ l2 ++ Assign n e :: l3) = collect_exports 0 q0)
     by (rewrite (app_assoc l1 l2), collect_exports_skipA, <- app_assoc; reflexivity).
-  assert (BL : first_base (l1 ++ Assign n e :: l2 ++ l3) = first_base q0) by apply first_base_skipA.
-  assert (BR : first_base (l1 ++ l2 ++ Assign n e :: l3) = first_base q0)
+  assert (BL : first_base 0 (l1 ++ Assign n e :: l2 ++ l3) = first_base 0 q0) by apply first_base_skipA.
+  assert (BR : first_base 0 (l1 ++ l2 ++ Assign n e :: l3) = first_base 0 q0)
     by (rewrite (app_assoc l1 l2), first_base_skipA, <- app_assoc; reflexivity).
   assert (IL : file_ids (l1 ++ Assign n e :: l2 ++ l3) = file_ids q0) by apply file_ids_skipA.
   assert (IR : file_ids (l1 ++ l2 ++ Assign n e :: l3) = file_ids q0)
@@ -718,15 +718,15 @@ Proof.
   destruct (negb (nodup_nat (0%nat :: file_ids q0))); [exact I|].
   destruct (negb (nodup_str (map fst XP))); [exact I|].
   assert (XM := xeval_move enc K XP n e names Dl Dr HK He Hd HD HDn).
-  assert (BASE : (match first_base q0 with
-                  | Some e0 => xbind (xeval enc Dl K XP [] [] fuel [] (0%nat, None) None e0) (fun v => lift (get_as_int (Some 16) false None v))
+  assert (BASE : (match first_base 0 q0 with
+                  | Some (f0, e0) => xbind (xeval enc Dl K XP [] [] fuel [] (f0, None) None e0) (fun v => lift (get_as_int (Some 16) false None v))
                   | None => XOk default_base end) =
-                 (match first_base q0 with
-                  | Some e0 => xbind (xeval enc Dr K XP [] [] fuel [] (0%nat, None) None e0) (fun v => lift (get_as_int (Some 16) false None v))
+                 (match first_base 0 q0 with
+                  | Some (f0, e0) => xbind (xeval enc Dr K XP [] [] fuel [] (f0, None) None e0) (fun v => lift (get_as_int (Some 16) false None v))
                   | None => XOk default_base end)).
-  { destruct (first_base q0); [|reflexivity]. rewrite (XM [] [] [] (locals_named_nil names) (tab_eq_refl n [])). reflexivity. }
+  { destruct (first_base 0 q0) as [[f0 e0]|]; [|reflexivity]. rewrite (XM [] [] [] (locals_named_nil names) (tab_eq_refl n [])). reflexivity. }
   rewrite BASE. clear BASE.
-  destruct (match first_base q0 with Some _ => _ | None => _ end) as [base| | | |]; try exact I. cbn [xbind].
+  destruct (match first_base 0 q0 with Some _ => _ | None => _ end) as [base| | | |]; try exact I. cbn [xbind].
   assert (Hn' := Hn). unfold q0 in Hn'. rewrite !forallb_app in Hn'. apply andb_true_iff in Hn'. destruct Hn' as [Hn1 Hn23].
   apply andb_true_iff in Hn23. destruct Hn23 as [Hn2 Hn3].
   assert (Hm : forall l, incl l q0 -> forall m, In m (lnames l) -> smem m names = true).
